@@ -334,7 +334,62 @@ var shimExceptions = map[string]string{
 	"golang.org/x/exp/slices.Sort":  "SortFunc",  // element order must go through Value.opLt
 }
 
+// fmtOperandsRule (part of TAB-SHIM): Go's formatting verbs work on Go numbers, strings and
+// booleans.  A shim that forwards script operands to a fmt function with a format string
+// (Sprintf, Printf, Fprintf, Errorf) must hand over Go values, not the VM's Value structs —
+// for a Value only the Stringer verbs (%v, %s) come out right, %d prints the struct.
+func fmtOperandsRule(c *Ctx, r *R) {
+	n := 0
+	for _, name := range c.FuncNames() {
+		fd := c.Func(name)
+		if fd.Body == nil {
+			continue
+		}
+		ast.Inspect(fd.Body, func(nd ast.Node) bool {
+			call, ok := nd.(*ast.CallExpr)
+			if !ok || !call.Ellipsis.IsValid() || len(call.Args) < 2 {
+				return true
+			}
+			switch c.CalleeName(call) {
+			case "fmt.Sprintf", "fmt.Printf", "fmt.Fprintf", "fmt.Errorf":
+			default:
+				return true
+			}
+			va, ok := unparen(call.Args[len(call.Args)-1]).(*ast.Ident)
+			if !ok {
+				return true
+			}
+			o := c.Obj(va)
+			encl := c.EnclosingFunc(call)
+			if encl == nil || o == nil {
+				return true
+			}
+			// every value appended to the operand slice
+			ast.Inspect(encl.Body, func(m ast.Node) bool {
+				ap, ok := m.(*ast.CallExpr)
+				if !ok || c.CalleeName(ap) != "builtin.append" || len(ap.Args) < 2 {
+					return true
+				}
+				if id, ok := unparen(ap.Args[0]).(*ast.Ident); !ok || c.Obj(id) != o {
+					return true
+				}
+				for _, a := range ap.Args[1:] {
+					n++
+					raw := isNamed(c.TypeOf(a), "Value")
+					r.check(!raw, "fmt operand "+name, c.Pos(ap), "operands are converted to Go values before formatting", "the shim around "+c.CalleeName(call)+" passes the VM's Value struct as a formatting operand ("+c.Src(a)+"): only %v and %s work; fmt.Sprintf(\"%d %5.2f %x %c %t\", 42, 3.14159, 255, 'A', true) prints the struct's fields instead of `42  3.14 ff A true`")
+				}
+				return true
+			})
+			return true
+		})
+	}
+	if n == 0 {
+		r.undecided("fmt operand", "-", "no shim that forwards operands to a fmt formatting function was found")
+	}
+}
+
 func ruleTabShim(c *Ctx, r *R) {
+	fmtOperandsRule(c, r)
 	manual := 0
 	for _, sh := range c.shims() {
 		pos := c.Pos(sh.Call)
